@@ -4,6 +4,7 @@ set -e
 export CARGO_NET_OFFLINE=true
 ROOT=$(cd "$(dirname "$0")" && pwd)
 export CARGO_TARGET_DIR="$ROOT/build/target"
+export VERIF_REPO="${VERIF_REPO:-/repo}"
 mkdir -p "$ROOT/build" "$ROOT/evidence" "$ROOT/replays"
 cd "$ROOT/harness"
 cargo build --release --offline -p tvc
